@@ -18,4 +18,4 @@ def run(ctx):
                         "the generic functions are not called with out-of-range indices (as container/heap, they do not accept them)"]
 
 def replay(ctx, rp):
-    return vlib.generic_replay(ctx, rp)
+    return vlib.replay_any(ctx, rp)
